@@ -135,7 +135,9 @@ struct Rendered {
     cli: Vec<String>,
 }
 
-fn render(t: &Template, places: &[(Place, Arg)], with_error: bool) -> Rendered {
+/// `err`: 0 = no error anywhere; 1 = a validation error in the lint's file; errors of the PARSING phases in the other
+/// file: 2 = a syntax error, 3 = definitions without a module, 4 = a preprocessor error
+fn render(t: &Template, places: &[(Place, Arg)], err: u8) -> Rendered {
     let mut text = String::new();
     for (line, s) in &t.lines {
         match s {
@@ -156,7 +158,7 @@ fn render(t: &Template, places: &[(Place, Arg)], with_error: bool) -> Rendered {
         }
         text.push('\n');
     }
-    if with_error {
+    if err == 1 {
         text.push_str("compact struct BAD {}\n");
     }
     let mut other = String::new();
@@ -167,7 +169,14 @@ fn render(t: &Template, places: &[(Place, Arg)], with_error: bool) -> Rendered {
     }
     // the other file has lints of its own, one of every kind (they are reported in different phases of the
     // compilation): only the command line and ITS file-level attribute may silence them
-    other.push_str("\nmodule N\nstruct Z {}\n[deprecated] struct OldN {}\nstruct UsesN { o: OldN }\n/// {@link NopeN}\ncustom CN\n/// @bogusN\ncustom DN\n/// @param q: none\nstruct EN {}\n");
+    match err {
+        3 => other.push_str("\nstruct Q {}\n"),
+        4 => other.push_str("\n#if\nmodule X\n#endif\n"),
+        _ => other.push_str("\nmodule N\nstruct Z {}\n[deprecated] struct OldN {}\nstruct UsesN { o: OldN }\n/// {@link NopeN}\ncustom CN\n/// @bogusN\ncustom DN\n/// @param q: none\nstruct EN {}\n"),
+    }
+    if err == 2 {
+        other.push_str("struct T { x y }\n");
+    }
     let mut cli = vec![];
     for (p, a) in places {
         if *p == Place::Cli {
@@ -214,7 +223,7 @@ fn strip_allow(n: &mut Node) {
 
 fn strip_spans_nothing(_: &mut Node) {}
 
-fn run_config(t: &Template, places: &[(Place, Arg)], with_error: bool, swap: bool, fam: &str, out: &mut CaseOut) -> String {
+fn run_config(t: &Template, places: &[(Place, Arg)], with_error: u8, swap: bool, fam: &str, out: &mut CaseOut) -> String {
     let _ = strip_spans_nothing;
     let mut base = render(t, &[], with_error);
     let mut with = render(t, places, with_error);
@@ -254,6 +263,10 @@ fn run_config(t: &Template, places: &[(Place, Arg)], with_error: bool, swap: boo
     // template sanity: the baseline produces the target lint as a warning
     let other_file = format!("string-{}", if swap { 0 } else { 1 });
     let target_base: Vec<&DiagObs> = bd.iter().filter(|d| d.code == t.lint && d.file.as_deref() != Some(other_file.as_str())).collect();
+    if target_base.is_empty() && with_error >= 2 {
+        // the other file does not parse: lints of the later phases are not produced at all
+        return "n/a-lint-of-a-later-phase".into();
+    }
     if target_base.is_empty() || target_base.iter().any(|d| d.level != "warning") {
         out.violate(format!("c13/{fam}/lint-not-reported-as-warning/{}", t.lint), format!("without any suppression the {} lint of this template must be a warning; diagnostics: {:?}\n{}", t.lint, bd.iter().map(|d| (&d.code, &d.level)).collect::<Vec<_>>(), desc()));
         return "no-lint".into();
@@ -284,7 +297,9 @@ fn run_config(t: &Template, places: &[(Place, Arg)], with_error: bool, swap: boo
             // a lint of the other file: silenced iff the command line or that file's own attribute names it
             let exp = places.iter().any(|(p, a)| matches!(p, Place::Cli | Place::OtherFile) && names(a, &d.code, t) && !(*a == Arg::ThatLowercase && *p != Place::Cli));
             let got = d.level == "allowed";
-            if exp != got {
+            // a file that does not parse has no attributes: its own file-level attribute is not judged then
+            let unjudged = matches!(with_error, 2 | 4) && places.iter().any(|(p, a)| *p == Place::OtherFile && names(a, &d.code, t)) && !places.iter().any(|(p, a)| *p == Place::Cli && names(a, &d.code, t));
+            if exp != got && !unjudged {
                 let pl: Vec<String> = places.iter().map(|(p, a)| format!("{p:?}:{a:?}")).collect();
                 out.violate(
                     format!("c13/{fam}/{}/lint-of-the-other-file/{}", if exp { "not-silenced" } else { "wrongly-silenced" }, pl.join("+")),
@@ -358,10 +373,10 @@ impl Product {
 }
 impl Family for Product {
     fn name(&self) -> String {
-        format!("single-placement/{} templates x 8 placements x 5 arguments x {{alone, next to an error}} x {{lint in the first file, in the second file}}", self.ts.len())
+        format!("single-placement/{} templates x 8 placements x 5 arguments x {{alone, next to a validation error, next to a file with a syntax error / without a module / with a preprocessor error}} x {{lint in the first file, in the second file}}", self.ts.len())
     }
     fn len(&self) -> u64 {
-        self.ts.len() as u64 * 8 * 5 * 2 * 2
+        self.ts.len() as u64 * 8 * 5 * 5 * 2
     }
     fn describe(&self, idx: u64) -> Value {
         let (t, p, a, e) = self.decode(idx % (self.len() / 2));
@@ -384,11 +399,11 @@ impl Family for Product {
     }
 }
 impl Product {
-    fn decode(&self, idx: u64) -> (&Template, Place, Arg, bool) {
-        let e = idx % 2 == 1;
-        let a = ARGS[((idx / 2) % 5) as usize].clone();
-        let p = PLACES[((idx / 10) % 8) as usize];
-        let t = &self.ts[(idx / 80) as usize];
+    fn decode(&self, idx: u64) -> (&Template, Place, Arg, u8) {
+        let e = (idx % 5) as u8;
+        let a = ARGS[((idx / 5) % 5) as usize].clone();
+        let p = PLACES[((idx / 25) % 8) as usize];
+        let t = &self.ts[(idx / 200) as usize];
         (t, p, a, e)
     }
 }
@@ -419,7 +434,7 @@ impl Family for PlacementPairs {
     }
     fn describe(&self, idx: u64) -> Value {
         let (t, a, b) = self.decode(idx);
-        let r = render(t, &[a.clone(), b.clone()], false);
+        let r = render(t, &[a.clone(), b.clone()], 0);
         json!({"lint": t.lint, "element": t.name, "placements": format!("{a:?} + {b:?}"), "files": r.files, "argv": r.cli})
     }
     fn run(&self, idx: u64) -> CaseOut {
@@ -432,7 +447,7 @@ impl Family for PlacementPairs {
             return out;
         }
         out.nontrivial = in_scope_target(a.0) == Some(true) || in_scope_target(b.0) == Some(true);
-        out.class = run_config(t, &[a, b], false, idx % 2 == 1, "pairs", &mut out);
+        out.class = run_config(t, &[a, b], 0, idx % 2 == 1, "pairs", &mut out);
         out
     }
 }
@@ -535,11 +550,11 @@ impl BinaryDifferential {
     pub fn new() -> Self {
         BinaryDifferential { ts: templates() }
     }
-    fn decode(&self, idx: u64) -> (&Template, Place, Arg, bool) {
-        let e = idx % 2 == 1;
-        let a = [Arg::That, Arg::All, Arg::Other][((idx / 2) % 3) as usize].clone();
-        let p = PLACES[1 + ((idx / 6) % 7) as usize];
-        let t = &self.ts[(idx / 42) as usize];
+    fn decode(&self, idx: u64) -> (&Template, Place, Arg, u8) {
+        let e = (idx % 5) as u8;
+        let a = [Arg::That, Arg::All, Arg::Other][((idx / 5) % 3) as usize].clone();
+        let p = PLACES[1 + ((idx / 15) % 7) as usize];
+        let t = &self.ts[(idx / 105) as usize];
         (t, p, a, e)
     }
 }
@@ -578,10 +593,10 @@ fn run_binary_c13(r: &Rendered) -> BinRun {
 }
 impl Family for BinaryDifferential {
     fn name(&self) -> String {
-        format!("binary-differential/{} templates x 7 placements x 3 arguments x {{alone, next to an error}} through the real binary with a capturing generator, without and with the suppression", self.ts.len())
+        format!("binary-differential/{} templates x 7 placements x 3 arguments x {{alone, next to a validation error, next to a file with a syntax error / without a module / with a preprocessor error}} through the real binary with a capturing generator, without and with the suppression", self.ts.len())
     }
     fn len(&self) -> u64 {
-        self.ts.len() as u64 * 42
+        self.ts.len() as u64 * 105
     }
     fn hang_secs(&self) -> f64 {
         120.0
